@@ -3,6 +3,7 @@ package c12
 import (
 	"bytes"
 	"fmt"
+	"os"
 	"strings"
 	"sync"
 	"testing"
@@ -49,6 +50,9 @@ func genSockPlan(t *rapid.T) SockPlan {
 		LabelLen: rapid.SampledFrom([]int{0, 0, 1, 3, 15, 31, 64, 200, 254, 255}).Draw(t, "label"),
 		KeyLen:   rapid.SampledFrom([]int{0, 0, 16, 32}).Draw(t, "key"), NoCompress: rapid.Bool().Draw(t, "nocomp"),
 		PV: uint8(rapid.IntRange(2, 5).Draw(t, "pv")), Workers: rapid.IntRange(1, 8).Draw(t, "workers")}
+	if os.Getenv("VF_SOCK_LABEL") != "" && p.LabelLen == 0 { // the run registered under C16: every case carries a label
+		p.LabelLen = rapid.SampledFrom([]int{1, 3, 15, 31, 64, 127, 200, 254, 255}).Draw(t, "label2")
+	}
 	big := 0
 	p.Sends = rapid.SliceOfN(rapid.Custom(func(t *rapid.T) SockSend {
 		s := SockSend{Reliable: rapid.IntRange(0, 3).Draw(t, "rel") == 0, Pattern: rapid.IntRange(0, 2).Draw(t, "pattern"), FromB: rapid.Bool().Draw(t, "fromb")}
@@ -65,6 +69,16 @@ func genSockPlan(t *rapid.T) SockPlan {
 		}
 		return s
 	}), 2, 40).Draw(t, "sends")
+	// a third of the cases: nothing but tiny unencrypted datagrams from many goroutines (the smallest packets are the
+	// ones that fit into whatever spare room a shared buffer has)
+	if rapid.IntRange(0, 2).Draw(t, "tiny") == 0 {
+		p.KeyLen = 0
+		p.Workers = rapid.IntRange(4, 8).Draw(t, "tinyworkers")
+		for i := range p.Sends {
+			p.Sends[i].Reliable = false
+			p.Sends[i].Len = 2 + i%7
+		}
+	}
 	return p
 }
 
